@@ -5,8 +5,10 @@ Export ListNotations.
 (* Results of Python calls.  OutOfFuel is distinct from every Python error and
    is excluded by each theorem that mentions it. *)
 Inductive errkind :=
-| EKey | EType | EValue | EAttr | ENotFound | EForbidden (extra : list N)
-| EClassVal | EIterVal | ERecursion | ESyntax | EOther.
+| EKey | EType | EValue | EAttr | ENotFound | EForbidden (cl : N) (extra : list N)
+| EClassVal (cl : N) (subs : list (option N * errkind))   (* ClassValidationError: (note: attribute name, sub-exception) *)
+| EIterVal (subs : list (option N * errkind))            (* IterableValidationError: (note: index / key id, sub-exception) *)
+| ERecursion | ESyntax | EOther.
 
 Inductive result (A : Type) :=
 | Ok (a : A) | Err (e : errkind) | OutOfFuel.
